@@ -83,7 +83,8 @@ fn ssh_banner(prefix: &[u8], free: usize, level: log::LevelFilter) {
 
 //# harness: c18_ssh_2_0_free6
 //# props: C18 C01 C19
-//# tier: quick
+//# tier: thorough
+//# timeout: 1200
 //# encodes: proto::ssh::repl, proto::ssh::ssh_parse
 //# bounds: identification = "SSH-2.0" (the dispatcher's signature) + 6 arbitrary bytes (version continuation, '-', software, SP, comment, lone CR, CR LF, bare LF, NUL, non-ASCII); log level Off
 //# assumes: empty software names are not judged (the property's grammar does not settle them)
@@ -98,7 +99,8 @@ fn c18_ssh_2_0_free6() {
 
 //# harness: c18_ssh_1_99_free5
 //# props: C18 C01
-//# tier: quick
+//# tier: thorough
+//# timeout: 1200
 //# encodes: proto::ssh::repl, proto::ssh::ssh_parse
 //# bounds: identification = "SSH-1.99" (the dispatcher's signature) + 5 arbitrary bytes (version continuation, '-', software, SP, comment, lone CR, CR LF, bare LF, NUL, non-ASCII); log level Off
 //# assumes: empty software names are not judged (the property's grammar does not settle them)
@@ -140,4 +142,34 @@ fn c18_ssh_2_0_free9() {
 #[kani::unwind(20)]
 fn c01_ssh_2_0_warn() {
     ssh_banner(b"SSH-2.0", 5, log::LevelFilter::Warn)
+}
+
+//# harness: c18_ssh_2_0_free4
+//# props: C18 C01 C19
+//# tier: quick
+//# encodes: proto::ssh::repl, proto::ssh::ssh_parse
+//# bounds: identification = "SSH-2.0" (the dispatcher's signature) + 4 arbitrary bytes (version continuation, '-', software, SP, comment, lone CR, CR LF, bare LF, NUL, non-ASCII); log level Off
+//# assumes: empty software names are not judged (the property's grammar does not settle them)
+//# out: identifications longer than 11 bytes (software/comment states are uniform self-loops; 5-9 free bytes at the thorough tier)
+//# cover: banner answered
+//# cover: banner not answered
+#[kani::proof]
+#[kani::unwind(20)]
+fn c18_ssh_2_0_free4() {
+    ssh_banner(b"SSH-2.0", 4, log::LevelFilter::Off)
+}
+
+//# harness: c18_ssh_1_99_free4
+//# props: C18 C01 C19
+//# tier: quick
+//# encodes: proto::ssh::repl, proto::ssh::ssh_parse
+//# bounds: identification = "SSH-1.99" (the dispatcher's signature) + 4 arbitrary bytes (version continuation, '-', software, SP, comment, lone CR, CR LF, bare LF, NUL, non-ASCII); log level Off
+//# assumes: empty software names are not judged (the property's grammar does not settle them)
+//# out: identifications longer than 12 bytes (software/comment states are uniform self-loops; 5-9 free bytes at the thorough tier)
+//# cover: banner answered
+//# cover: banner not answered
+#[kani::proof]
+#[kani::unwind(20)]
+fn c18_ssh_1_99_free4() {
+    ssh_banner(b"SSH-1.99", 4, log::LevelFilter::Off)
 }
